@@ -64,6 +64,15 @@ fn judge_log(log: &Log, content: &dyn Fn(u128) -> Option<Vec<u8>>, payload_intac
             }
         }
         if w.state == WState::Complete {
+            // "(and its MD5 matched when checked)": the digest that counts is the one of the bytes the writer was given
+            if script.md5_check && w.data.len() == w.bytes_written {
+                if let Some(announced) = &w.meta.md5 {
+                    let got = vh::session::md5_b64(&w.data);
+                    if &got != announced {
+                        out.push(mk("complete_md5_mismatch", format!("complete although the MD5 of the {} bytes written ({}) is not the announced Content-MD5 ({})", w.data.len(), got, announced)));
+                    }
+                }
+            }
             if let Some(cl) = w.meta.content_length {
                 if w.bytes_written != cl {
                     out.push(mk("complete_length", format!("complete after {} bytes, announced Content-Length {}", w.bytes_written, cl)));
@@ -209,16 +218,23 @@ fn main() {
             // announced Content-Length vs real length (null encoding): equal, larger, smaller
             let cl_delta: i64 = [0i64, 5, -1][(i / (fecs.len() * lens.len() * n_scripts * 6)) % 3];
             let mut rng = Rng::keyed(ctx.seed, "C09b", 0, i as u64);
-            let data = rng.bytes(len);
+            let content_bytes = rng.bytes(len);
+            // one case in three (orders 0-2, non-empty objects): the object travels content-encoded; Content-Length and
+            // Content-MD5 speak of the decoded content, Transfer-Length of what is on the wire
+            let cenc = if variant <= 2 && len > 0 && i % 3 == 1 { [CencSpec::Gzip, CencSpec::Zlib, CencSpec::Deflate][(i / 3) % 3] } else { CencSpec::Null };
+            let data = vh::session::deflate(cenc, &content_bytes);
+            let content_len = len;
+            let len = data.len();
             let e = 8usize;
             let b = if variant >= 3 { 1usize } else { 4usize };
             let part = ref_partition(b as u128, len as u128, e as u128);
             let toi: u128 = 7;
             let tsi = 3;
-            let md5 = vh::session::md5_b64(&data);
+            let md5 = vh::session::md5_b64(&content_bytes);
             let xml = format!(
-                "<?xml version=\"1.0\" encoding=\"UTF-8\"?>\n<FDT-Instance xmlns=\"urn:IETF:metadata:2005:FLUTE:FDT\" Expires=\"{}\"><File TOI=\"{}\" Content-Location=\"file:///h/x.bin\" Content-Length=\"{}\" Transfer-Length=\"{}\" Content-MD5=\"{}\"/></FDT-Instance>",
-                expires_in(3600), toi, (len as i64 + cl_delta).max(0), len, md5);
+                "<?xml version=\"1.0\" encoding=\"UTF-8\"?>\n<FDT-Instance xmlns=\"urn:IETF:metadata:2005:FLUTE:FDT\" Expires=\"{}\"><File TOI=\"{}\" Content-Location=\"file:///h/x.bin\" Content-Length=\"{}\" Transfer-Length=\"{}\" Content-MD5=\"{}\"{}/></FDT-Instance>",
+                expires_in(3600), toi, (content_len as i64 + cl_delta).max(0), len, md5,
+                if cenc == CencSpec::Null { String::new() } else { format!(" Content-Encoding=\"{}\"", cenc.name()) });
             let fdt = wrap_fdt(xml.as_bytes(), tsi, 5, 1400, None, true);
             // object packets with in-band FTI built by the independent encoder (source symbols only)
             let fti = Fti { fec, l: len as u64, e: e as u16, b: b as u32, max_n: Some(b as u32 + 2), instance: Some(0), z: Some(part.n.max(1) as u32), n: Some(1), al: Some(1), m: None, g: None };
@@ -289,11 +305,11 @@ fn main() {
             let ep = flute::core::UDPEndpoint::new(None, "224.0.0.1".into(), 3400);
             let mut cr = CaseResult::default();
             // with a lying Content-Length the object must never complete; prefix still holds
-            let content = |t: u128| if t == toi && cl_delta == 0 { Some(data.clone()) } else { None };
+            let content = |t: u128| if t == toi && cl_delta == 0 { Some(content_bytes.clone()) } else { None };
             let mut nw = 0u64;
             for d in (0..=pk.len()).rev() {
                 let drop_after = if d == pk.len() { None } else { Some(d) };
-                let desc = || json!({"fdt_without_oti": true, "fec": fec, "len": len, "script": sname, "variant": variant, "drop_after": drop_after,
+                let desc = || json!({"fdt_without_oti": true, "fec": fec, "len": content_len, "cenc": cenc.name(), "script": sname, "variant": variant, "drop_after": drop_after,
                     "packets": pk.iter().map(|(b, _)| util::hex(&b[..b.len().min(120)])).collect::<Vec<_>>()});
                 match run_history(&ep, &pk, &script, drop_after, true) {
                     Ok(rx) => {
@@ -312,7 +328,7 @@ fn main() {
             cr.count("histories", pk.len() as u64 + 1);
             cr.count("writers", nw);
             if nw > 0 {
-                cr.shape = Some(util::fnv(&format!("noOTI|{}|{}|{}|{}|{}", fec, len, sname, variant, cl_delta)));
+                cr.shape = Some(util::fnv(&format!("noOTI|{}|{}|{}|{}|{}|{}", fec, content_len, sname, variant, cl_delta, cenc.name())));
             }
             if i % 29 == 0 {
                 cr.sample = Some(json!({"fec": fec, "len": len, "script": sname, "variant": variant, "writers": nw, "xml": xml}));
